@@ -1,6 +1,6 @@
 --------------------------- MODULE Ind_AddressProof ---------------------------
 (* X05 - TLAPS proof, over the ORIGINAL modules Address / MC_Address, that the address assignment
-   design is safe (DesignSafe: every write it gets to is a permitted assignment; Unique;
+   design is safe (DesignSafe: every write it gets to is a permitted assignment; UniqueAssigned;
    WrittenInRange; UsedCovers) for ANY number N of terminals, ANY range (Lo, Hi), ANY pool Addrs of
    integers, either reading of the upper end (HiIncl) and ANY number of concurrent tasks.       *)
 EXTENDS MC_Address, FiniteSetTheorems, TLAPS
@@ -27,7 +27,7 @@ Owned == \A k \in Ids : Busy(k) =>
             /\ \A j \in Ids : (j # k /\ Busy(j)) => task[j].cand # task[k].cand
             /\ task[k].pc = "write" => \A u \in 1 .. N : conf[u] # task[k].cand
 
-IndInv == TypeInv /\ Unique /\ UsedCovers /\ WrittenInRange /\ Owned
+IndInv == TypeInv /\ UniqueAssigned /\ UsedCovers /\ WrittenInRange /\ Owned
 
 -----------------------------------------------------------------------------
 THEOREM AInitInd == MCInit => IndInv
@@ -42,8 +42,8 @@ THEOREM AInitInd == MCInit => IndInv
   BY DEF MCInit
 <1>2. task \in [Ids -> TaskRec] /\ \A k \in Ids : ~Busy(k)
   BY <1>1 DEF Ids, Kinds, TaskRec, PCs, Busy
-<1>3. conf \in [1 .. N -> Int] /\ Unique
-  BY DEF MCInit, Unique, Terms
+<1>3. conf \in [1 .. N -> Int] /\ UniqueAssigned
+  BY DEF MCInit, UniqueAssigned, Terms
 <1> QED BY <1>2, <1>3 DEF MCInit, IndInv, TypeInv, UsedCovers, WrittenInRange, Owned
 
 THEOREM AStepInd == IndInv /\ [DNext]_avars => IndInv'
@@ -51,7 +51,7 @@ THEOREM AStepInd == IndInv /\ [DNext]_avars => IndInv'
   OBVIOUS
 <1> USE AAssump
 <1>0. CASE UNCHANGED avars
-  BY <1>0 DEF avars, bvars, IndInv, TypeInv, Unique, UsedCovers, WrittenInRange, Owned, Busy, InRange, Terms
+  BY <1>0 DEF avars, bvars, IndInv, TypeInv, UniqueAssigned, UsedCovers, WrittenInRange, Owned, Busy, InRange, Terms
 <1>a. DOMAIN task = Ids /\ Terms = 1 .. N
   BY DEF IndInv, TypeInv, Terms
 <1>1. ASSUME NEW k \in Ids, DRead(k) PROVE IndInv'
@@ -62,7 +62,7 @@ THEOREM AStepInd == IndInv /\ [DNext]_avars => IndInv'
     BY <2>1 DEF IndInv, TypeInv, TaskRec, PCs, Busy
   <2>3. \A j \in Ids : task'[j].cand = task[j].cand
     BY <2>1 DEF IndInv, TypeInv, TaskRec
-  <2> QED BY <2>1, <2>2, <2>3 DEF IndInv, TypeInv, Unique, UsedCovers, WrittenInRange, Owned, Busy, InRange, Terms
+  <2> QED BY <2>1, <2>2, <2>3 DEF IndInv, TypeInv, UniqueAssigned, UsedCovers, WrittenInRange, Owned, Busy, InRange, Terms
 <1>2. ASSUME NEW k \in Ids, DPick(k) PROVE IndInv'
   <2>1. PICK a \in Addrs : /\ InRange(a) /\ a \notin used
                            /\ used' = used \cup {a}
@@ -73,8 +73,8 @@ THEOREM AStepInd == IndInv /\ [DNext]_avars => IndInv'
   <2>3. /\ task' \in [Ids -> TaskRec] /\ task'[k].pc = "probe" /\ task'[k].cand = a
         /\ \A j \in Ids : j # k => task'[j] = task[j]
     BY <2>1 DEF IndInv, TypeInv, TaskRec, PCs
-  <2>4. TypeInv' /\ Unique' /\ UsedCovers' /\ WrittenInRange'
-    BY <2>1, <2>2, <2>3 DEF IndInv, TypeInv, Unique, UsedCovers, WrittenInRange, InRange, Terms
+  <2>4. TypeInv' /\ UniqueAssigned' /\ UsedCovers' /\ WrittenInRange'
+    BY <2>1, <2>2, <2>3 DEF IndInv, TypeInv, UniqueAssigned, UsedCovers, WrittenInRange, InRange, Terms
   <2>5. Owned'
     BY <2>1, <2>2, <2>3 DEF IndInv, TypeInv, UsedCovers, Owned, Busy, InRange
   <2> QED BY <2>4, <2>5 DEF IndInv
@@ -97,8 +97,8 @@ THEOREM AStepInd == IndInv /\ [DNext]_avars => IndInv'
   <2>5. a \in used /\ a \in Int /\ answered' \subseteq answered \cup {a}
     BY <2>1 DEF IndInv, TypeInv, Owned, Busy, TaskRec
   <2> HIDE DEF a, w
-  <2>6. TypeInv' /\ Unique' /\ UsedCovers' /\ WrittenInRange'
-    BY <2>1, <2>4, <2>5 DEF IndInv, TypeInv, Unique, UsedCovers, WrittenInRange, InRange, Terms
+  <2>6. TypeInv' /\ UniqueAssigned' /\ UsedCovers' /\ WrittenInRange'
+    BY <2>1, <2>4, <2>5 DEF IndInv, TypeInv, UniqueAssigned, UsedCovers, WrittenInRange, InRange, Terms
   <2>7. Owned'
     BY <2>1, <2>2, <2>3, <2>4, <2>5 DEF IndInv, TypeInv, Owned, Busy, InRange, a
   <2> QED BY <2>6, <2>7 DEF IndInv
@@ -120,16 +120,16 @@ THEOREM AStepInd == IndInv /\ [DNext]_avars => IndInv'
   <2> HIDE DEF a, t
   <2>4. TypeInv' /\ UsedCovers' /\ WrittenInRange'
     BY <2>1, <2>2, <2>3 DEF IndInv, TypeInv, UsedCovers, WrittenInRange, InRange, Terms
-  <2>5. Unique'
-    BY <2>1, <2>3 DEF IndInv, TypeInv, Unique, Terms
+  <2>5. UniqueAssigned'
+    BY <2>1, <2>3 DEF IndInv, TypeInv, UniqueAssigned, Terms
   <2>6. Owned'
     BY <2>1, <2>2, <2>3 DEF IndInv, TypeInv, Owned, Busy, InRange
   <2> QED BY <2>4, <2>5, <2>6 DEF IndInv
 <1> QED BY <1>0, <1>a, <1>1, <1>2, <1>3, <1>4 DEF DNext
 
-THEOREM IndImplies == IndInv => DesignSafe /\ Unique /\ WrittenInRange /\ UsedCovers
+THEOREM IndImplies == IndInv => DesignSafe /\ UniqueAssigned /\ WrittenInRange /\ UsedCovers
   BY DEF IndInv, TypeInv, Owned, Busy, DesignSafe, WriteOK, Terms
 
-THEOREM ASafe == MCSpec => [](DesignSafe /\ Unique /\ WrittenInRange /\ UsedCovers)
+THEOREM ASafe == MCSpec => [](DesignSafe /\ UniqueAssigned /\ WrittenInRange /\ UsedCovers)
   BY AInitInd, AStepInd, IndImplies, PTL DEF MCSpec
 =============================================================================
